@@ -34,10 +34,48 @@ var rc = [24]uint64{
 	0x8000000080008008,
 }
 
-// keccakF1600 applies the Keccak permutation to a 1600b-wide
-// state represented as a slice of 25 uint64s.
-// TODO(baumanl): this doesn't pass kravatte tests because it needs to
-// be modified to do 6 rounds instead of 24 I think
+// rotc stores the rotation offsets of the ρ step, indexed by lane x+5y.
+var rotc = [25]uint{
+	0, 1, 62, 28, 27,
+	36, 44, 6, 55, 20,
+	3, 10, 43, 25, 39,
+	41, 45, 15, 21, 8,
+	18, 2, 61, 56, 14,
+}
+
+// keccakF1600 applies Keccak-p[1600, 6], the last 6 rounds of the Keccak
+// permutation, to a 1600b-wide state represented as a slice of 25 uint64s. It
+// computes the same function as the assembly implementations.
 func keccakF1600(a *[25]uint64) {
-	panic("keccak with 6 rounds is unimplemented in pure go")
+	var c [5]uint64
+	var b [25]uint64
+	for round := 18; round < 24; round++ {
+		// θ
+		for x := 0; x < 5; x++ {
+			c[x] = a[x] ^ a[x+5] ^ a[x+10] ^ a[x+15] ^ a[x+20]
+		}
+		for x := 0; x < 5; x++ {
+			t := c[(x+1)%5]
+			d := c[(x+4)%5] ^ (t<<1 | t>>63)
+			for y := 0; y < 25; y += 5 {
+				a[x+y] ^= d
+			}
+		}
+		// ρ and π
+		for x := 0; x < 5; x++ {
+			for y := 0; y < 5; y++ {
+				t := a[x+5*y]
+				r := rotc[x+5*y]
+				b[y+5*((2*x+3*y)%5)] = t<<r | t>>(64-r)
+			}
+		}
+		// χ
+		for y := 0; y < 25; y += 5 {
+			for x := 0; x < 5; x++ {
+				a[x+y] = b[x+y] ^ (^b[(x+1)%5+y] & b[(x+2)%5+y])
+			}
+		}
+		// ι
+		a[0] ^= rc[round]
+	}
 }
